@@ -73,26 +73,29 @@ theorem enc_start_zero : enc .start = 0 := by decide
 def cellOf (ts ti td : Tb) : TracebackCell :=
   ⟨TbCell.setBits (TbCell.setBits (TbCell.setBits 0 iPos (enc ti)) dPos (enc td)) sPos (enc ts)⟩
 
-/-- the three tie-breaks the property leaves open (condition holes of the translation): `I` layer (`i_score` against
-`s_score`), `D` layer (`d_score` against `s_score`), y-suffix-clip tracker (`S + yclip_suffix` against `Sn[i]`) -/
+/-- the tie-breaks the property leaves open (condition holes of the translation): `I` layer (`i_score` against
+`s_score`), `D` layer (`d_score` against `s_score`), y-suffix-clip tracker (`S + yclip_suffix` against `Sn[i]`) in the main loop
+(`snT`) and in the initialisation of column 0 (`sn0T`) -/
 structure Ties where
   iT : Int → Int → Bool
   dT : Int → Int → Bool
   snT : Int → Int → Bool
+  sn0T : Int → Int → Bool
 
 /-- an admissible tie-break: true when strictly greater, false when strictly smaller (free on ties) -/
 def TieOk (T : Int → Int → Bool) : Prop := ∀ a b, (a > b → T a b = true) ∧ (T a b = true → a ≥ b)
-def TiesOk (T : Ties) : Prop := TieOk T.iT ∧ TieOk T.dT ∧ TieOk T.snT
+def TiesOk (T : Ties) : Prop := TieOk T.iT ∧ TieOk T.dT ∧ TieOk T.snT ∧ TieOk T.sn0T
 
 /-- the tie-breaks of the pinned text (strict `>` everywhere) -/
-def pinned : Ties := ⟨fun a b => decide (a > b), fun a b => decide (a > b), fun a b => decide (a > b)⟩
+def pinned : Ties :=
+  ⟨fun a b => decide (a > b), fun a b => decide (a > b), fun a b => decide (a > b), fun a b => decide (a > b)⟩
 /-- the tie-breaks found in the source on this run -/
-def srcTies : Ties := ⟨custom_iTie, custom_dTie, custom_snTie⟩
+def srcTies : Ties := ⟨custom_iTie, custom_dTie, custom_snTie, custom_sn0Tie⟩
 
 /-- the tests found in the source are admissible tie-breaks (true of `>` and `>=`, in either operand order) -/
 theorem srcTies_ok : TiesOk srcTies := by
-  refine ⟨fun a b => ?_, fun a b => ?_, fun a b => ?_⟩ <;>
-    simp only [srcTies, custom_iTie, custom_dTie, custom_snTie, decide_eq_true_eq] <;> omega
+  refine ⟨fun a b => ?_, fun a b => ?_, fun a b => ?_, fun a b => ?_⟩ <;>
+    simp only [srcTies, custom_iTie, custom_dTie, custom_snTie, custom_sn0Tie, decide_eq_true_eq] <;> omega
 
 /-- `match o with | none => none | some a => f a` -/
 def obind {α β : Type} (o : Option α) (f : α → Option β) : Option β :=
@@ -351,7 +354,7 @@ theorem cell_update_aux (w : Nat → Nat → Int) (T : Ties) (a : Aligner) (x : 
     (hc : curr < 2) (hp : prev < 2) (hcp : curr ≠ prev)
     (hreset : i ≠ m → (a.S.getD curr []).getD i 0 = minScore)
     (hL : SIs a (i - 1) j tsL) (hU : SIs a i (j - 1) tsU) :
-    custom_for5 w T.iT T.dT T.snT x m n j curr prev q xclip a i =
+    custom_for5 w T.iT T.dT T.snT T.sn0T x m n j curr prev q xclip a i =
       ofOpt (stepJT T (scOf w a) (clOf a) m n j i (x.getD (i - 1) 0) q xclip (rowPrev1 a prev (i - 1))
           (rowPrev a prev i tsU) (rowCur a m j curr (i - 1) tsL)) >>= fun r' => Res.ok (writeRow a m curr i j r') := by
   obtain ⟨S2, I2, D2, Srow, Irow, Drow, hSn, hLy, hLx, htb, hrows, hcols⟩ := hd
@@ -426,8 +429,10 @@ theorem cell_update_aux (w : Nat → Nat → Int) (T : Ties) (a : Aligner) (x : 
     by_cases h : i = m
     · rw [if_pos h, h]
     · rw [if_neg h]; exact hreset h
+  have hcomm : ∀ s, I32.add (w (x.getD (i - 1) 0) q) s = I32.add s (w (x.getD (i - 1) 0) q) := fun s => by
+    unfold I32.add; rw [Int.add_comm]
   unfold custom_for5
-  simp only [e1, e1j, e2, e3, e4, e5, e6, e7, e8, eSc, eSp, eIc, eDc, eDp, eL, eU, cellNew_eq_model, Res.pure_eq_ok, Res.ok_bind,
+  simp only [hcomm, e1, e1j, e2, e3, e4, e5, e6, e7, e8, eSc, eSp, eIc, eDc, eDp, eL, eU, cellNew_eq_model, Res.pure_eq_ok, Res.ok_bind,
     bind_pure_comp, iadd32, imul32, castSigned32, getSBits_eq_model, hL, hU, k_ins, k_del, k_xsuf, k_xpre, k_ypre, enc_ite,
     setI_new, setD_cI, setS_cD, setS_cell, ite_ok, ite_fst, ite_snd, ite_cI, ite_cD, ite_cell, minScore_eq, upd_fold,
     f1, f2, f3, f4, f5, f6, f7, f8, f9, f10, f11, f12, f13, f14, f15, f16, f17, f18, f19, eW, bind_assoc,
@@ -458,7 +463,7 @@ theorem cell_update_mod_ties (w : Nat → Nat → Int) (T : Ties) (a : Aligner) 
     (tsL tsU : Tb) (hd : Dims a m n) (hx : x.length = m) (hi : 1 ≤ i) (him : i ≤ m) (hj : 1 ≤ j) (hjn : j ≤ n)
     (hreset : i ≠ m → (a.S.getD (j % 2) []).getD i 0 = minScore)
     (hL : SIs a (i - 1) j tsL) (hU : SIs a i (j - 1) tsU) :
-    custom_for5 w T.iT T.dT T.snT x m n j (j % 2) (1 - j % 2) q xclip a i =
+    custom_for5 w T.iT T.dT T.snT T.sn0T x m n j (j % 2) (1 - j % 2) q xclip a i =
       ofOpt (stepJT T (scOf w a) (clOf a) m n j i (x.getD (i - 1) 0) q xclip (rowPrev1 a (1 - j % 2) (i - 1))
           (rowPrev a (1 - j % 2) i tsU) (rowCur a m j (j % 2) (i - 1) tsL)) >>= fun r' =>
         Res.ok (writeRow a m (j % 2) i j r') :=
